@@ -1,7 +1,9 @@
 /* harness/h_exn.c — engine `exn` (C07): runs try/throw/catch program trees on the real macros.
  *
  * op file: one program per line, `P <sexp>` with
- *   program ::= (s N) | (t K) | (n) | (m K) | (r) | (q P P) | (c P (K*) P) | (f P) | (d N P)
+ *   program ::= (s N) | (t K) | (g N) | (k N) | (n) | (m K) | (r) | (q P P) | (c P (K*) P) | (f P) | (d N P)
+ *     (k N)        raise(signal N % 6 of SIGABRT SIGFPE SIGILL SIGINT SIGSEGV SIGTERM) with exception_signals() installed; each signal at
+ *                  most once per program (a second raise of a signal is finding KF-C07-signal-once: op S)
  *     (s N)        statement N
  *     (t K)        throw(kind K, "kind %i", $I(K))
  *     (g N)        a library function raises inside the body: N even get(Table, missing key) -> KeyError, N odd rem(Array, absent) -> ValueError
@@ -12,6 +14,7 @@
  *     (c P (K*) P) try { P } catch (e in K*) { P }              — filter arity 0…4
  *     (f P)        P in a callee frame;  (d N P)  P called through N frames
  * or `L a b c f1 f2 f3` (three lexically nested blocks in one C function),
+ * or `S mode n1 n2 …` (a history of try { raise(sig) } catch blocks in one thread), `E k shape len` (the report of an uncaught exception),
  * or `A` (the documented accessors exception_object() / exception_message(): defined or not; finding KF-C07-accessors-undefined).
  * Kinds K < 100 are the library's Type objects TypeError … BusyError (K modulo 6); kinds 100 + j are objects that are NOT
  * Types (j modulo 7): the heap Strings "A", "B", "A" (a second object), "TypeError", the heap Ints 5, 7, 5 (a second object).
@@ -42,7 +45,8 @@
 /* the nesting bound of property C07 (Lean: Cello.Exn.nestBound): NOT taken from the source under test */
 #define C07_NEST_BOUND 2048
 
-enum { STMT, THROW, THROWNULL, THROWBAD, RETHROW, SEQ, TRY, CALL, DEEP, LIBRAISE };
+enum { STMT, THROW, THROWNULL, THROWBAD, RETHROW, SEQ, TRY, CALL, DEEP, LIBRAISE, SIGRAISE };
+static int allow_sig_filter; /* filter entries 200 + j (the signal exception objects): only in the programs op `S` builds */
 #define MAXFILT 4
 typedef struct Node { int kind; int n; int filt[MAXFILT]; int nfilt; struct Node *a, *b; } Node;
 
@@ -60,6 +64,7 @@ static Node* parse_node(void) {
     case 't': skipws(); if (!is_digit()) return NULL; n->kind = THROW; n->n = parse_num(); break;
     case 'm': skipws(); if (!is_digit()) return NULL; n->kind = THROWBAD; n->n = parse_num(); break;
     case 'g': skipws(); if (!is_digit()) return NULL; n->kind = LIBRAISE; n->n = parse_num(); break;
+    case 'k': skipws(); if (!is_digit()) return NULL; n->kind = SIGRAISE; n->n = parse_num(); break;
     case 'n': n->kind = THROWNULL; break;
     case 'r': n->kind = RETHROW; break;
     case 'q': n->kind = SEQ; n->a = parse_node(); n->b = parse_node(); if (!n->a || !n->b) return NULL; break;
@@ -70,7 +75,7 @@ static Node* parse_node(void) {
       n->kind = TRY; n->a = parse_node(); if (!n->a) return NULL;
       skipws(); if (*cur != '(') return NULL; cur++;
       for (;;) { skipws(); if (*cur == ')') { cur++; break; } if (!is_digit()) return NULL;
-        if (n->nfilt >= MAXFILT) return NULL; n->filt[n->nfilt++] = parse_num(); }
+        if (n->nfilt >= MAXFILT) return NULL; n->filt[n->nfilt++] = parse_num(); if (n->filt[n->nfilt-1] >= 200 && !allow_sig_filter) return NULL; }
       n->b = parse_node(); if (!n->b) return NULL; break;
     default: return NULL;
   }
@@ -82,6 +87,11 @@ static Node* parse_node(void) {
 #define NEXTRA 7
 #define IDX_CLASSERR 6          /* ClassError: never named by a program, raised by c_str / c_int on an object without the class */
 #define IDX_EXTRA0 7            /* index of extra object j = 7 + j (Lean: address 8 + j) */
+#define NSIGS 6
+#define IDX_SIG0 14             /* index of the exception object of signal j = 14 + j (Lean: address 15 + j, Cello.Exn.sigObj) */
+static const int sig_num[NSIGS] = { SIGABRT, SIGFPE, SIGILL, SIGINT, SIGSEGV, SIGTERM };
+static var sig_exc(int j) { switch (j % NSIGS) { case 0: return ProgramAbortedError; case 1: return DivisionByZeroError; case 2: return IllegalInstructionError;
+    case 3: return ProgramInterruptedError; case 4: return SegmentationError; default: return ProgramTerminationError; } }
 static var extra_obj[NEXTRA];
 static void make_extras(void) {
   extra_obj[0] = new_root(String, $S("A")); extra_obj[1] = new_root(String, $S("B")); extra_obj[2] = new_root(String, $S("A"));
@@ -89,6 +99,7 @@ static void make_extras(void) {
   extra_obj[4] = new_root(Int, $I(5)); extra_obj[5] = new_root(Int, $I(7)); extra_obj[6] = new_root(Int, $I(5));
 }
 static var kind_obj(int k) {
+  if (k >= 200) return sig_exc(k - 200);
   if (k >= 100) return extra_obj[(k - 100) % NEXTRA];
   switch (k % NKINDS) {
     case 0: return TypeError; case 1: return ValueError; case 2: return KeyError;
@@ -100,14 +111,18 @@ static int kind_index(var e) {
   for (int k = 0; k < NKINDS; k++) if (kind_obj(k) == e) return k;
   if (e == ClassError) return IDX_CLASSERR;
   for (int j = 0; j < NEXTRA; j++) if (extra_obj[j] == e) return IDX_EXTRA0 + j;
+  for (int j = 0; j < NSIGS; j++) if (sig_exc(j) == e) return IDX_SIG0 + j;
   return 99;
 }
-static int canon(int k) { return k >= 100 ? IDX_EXTRA0 + (k - 100) % NEXTRA : k % NKINDS; }
+static int canon(int k) { return k >= 200 ? IDX_SIG0 + (k - 200) % NSIGS : k >= 100 ? IDX_EXTRA0 + (k - 100) % NEXTRA : k % NKINDS; }
 
 /* the oracle's own table of what these objects are (class T = Type / S = String / I = Int; text or number) */
-static const char o_cls[IDX_EXTRA0 + NEXTRA] = { 'T','T','T','T','T','T','T', 'S','S','S','S', 'I','I','I' };
-static const char* o_text[IDX_EXTRA0 + NEXTRA] = { "TypeError","ValueError","KeyError","IOError","FormatError","BusyError","ClassError", "A","B","A","TypeError", 0,0,0 };
-static const long o_num[IDX_EXTRA0 + NEXTRA] = { 0,0,0,0,0,0,0, 0,0,0,0, 5,7,5 };
+static const char o_cls[IDX_SIG0 + NSIGS] = { 'T','T','T','T','T','T','T', 'S','S','S','S', 'I','I','I', 'T','T','T','T','T','T' };
+static const char* o_text[IDX_SIG0 + NSIGS] = { "TypeError","ValueError","KeyError","IOError","FormatError","BusyError","ClassError", "A","B","A","TypeError", 0,0,0,
+  "ProgramAbortedError","DivisionByZeroError","IllegalInstructionError","ProgramInterruptedError","SegmentationError","ProgramTerminationError" };
+/* the oracle's own copy of what a signal becomes (documentation of exception_signals + the messages of Exception_Signal) */
+static const char* o_sig_msg[NSIGS] = { "Program Aborted", "Division by Zero", "Illegal Instruction", "Program Interrupted", "Segmentation fault", "Program Terminated" };
+static const long o_num[IDX_SIG0 + NSIGS] = { 0,0,0,0,0,0,0, 0,0,0,0, 5,7,5, 0,0,0,0,0,0 };
 /* entry a lists exception e: equal value */
 static int o_lists(int a, int e) {
   if (o_cls[a] == 'I' || o_cls[e] == 'I') return o_cls[a] == o_cls[e] && o_num[a] == o_num[e];
@@ -158,6 +173,18 @@ static var lib_table, lib_array;
 __attribute__((noinline)) static void do_lib_raise(int k) {
   if (k % 2 == 0) (void)get(lib_table, $S("zz")); else rem(lib_array, $I(42));
 }
+/* raise(sig) with exception_signals() installed (done at the start of the child): Exception_Signal throws from inside raise */
+__attribute__((noinline)) static void do_sig_raise(int k) { raise(sig_num[k % NSIGS]); }
+/* op E: the three message shapes with a chosen length of the %s argument */
+static char fillbuf[60001];
+static void make_fill(size_t n) { for (size_t i = 0; i < n; i++) fillbuf[i] = (char)('a' + i % 26); fillbuf[n] = 0; }
+__attribute__((noinline)) static void do_throw_shape(int k, int shape, size_t n) {
+  switch (shape % 3) {
+    case 0: throw(kind_obj(k), "kind %i", $I(k)); break;
+    case 1: throw(kind_obj(k), "%$ is kind %i (100%%)", $S("obj"), $I(k)); break;
+    default: make_fill(n); throw(kind_obj(k), "kind %i %s end", $I(k), $S(fillbuf)); break;
+  }
+}
 __attribute__((noinline)) static void do_throw_null(void) { throw(NULL, "null"); }
 __attribute__((noinline)) static void do_throw_bad(int k) { throw(kind_obj(k), "kind %i"); }
 __attribute__((noinline)) static void do_rethrow(var x) { throw(x, "re"); }
@@ -176,6 +203,7 @@ static void run(Node* n, var x) {
     case THROW: do_throw(n->n); break;
     case THROWNULL: do_throw_null(); break;
     case LIBRAISE: do_lib_raise(n->n); break;
+    case SIGRAISE: do_sig_raise(n->n); break;
     case THROWBAD: do_throw_bad(n->n); break;
     case RETHROW: do_rethrow(x); break;
     case SEQ: run(n->a, x); run(n->b, x); break;
@@ -226,6 +254,7 @@ static int oeval(Node* n, int x, size_t depth) { /* returns -1 = completed, else
     case LIBRAISE:
       if (n->n % 2 == 0) { snprintf(o_msg, sizeof o_msg, "Key \"zz\" not in Table!"); return 2; }
       snprintf(o_msg, sizeof o_msg, "Object 42 not in Array!"); return 1;
+    case SIGRAISE: snprintf(o_msg, sizeof o_msg, "%s", o_sig_msg[n->n % NSIGS]); return IDX_SIG0 + n->n % NSIGS;  /* block structure: a raised signal IS a throw */
     case THROWNULL: return -1;  /* not judged: see out_of_domain() */
     case RETHROW: snprintf(o_msg, sizeof o_msg, "re"); return x;
     case SEQ: { int r = oeval(n->a, x, depth); if (r >= 0) return r; return oeval(n->b, x, depth); }
@@ -261,6 +290,9 @@ static int has_dup_filter(Node* n) {
   return has_dup_filter(n->a) || has_dup_filter(n->b);
 }
 
+/* the signals a program raises: count per signal */
+static void count_sigs(Node* n, int* cnt) { if (!n) return; if (n->kind == SIGRAISE) cnt[n->n % NSIGS]++; count_sigs(n->a, cnt); count_sigs(n->b, cnt); }
+
 /* op `A`: the accessors the documentation names. Declared in Cello.h; weak here, so that the harness links when no source
    file defines them (their address is then NULL). */
 #pragma weak exception_object
@@ -278,12 +310,53 @@ static void accessor_probe(size_t line) {
   if (!ok_msg) X("sig=exn-accessor-wrong line=%zu what=exception_message() in a handler is not the thrown message", line);
 }
 
+/* op `E k shape len`: throw(kind k, message of the given shape, %s argument of `len` characters) at top level, uncaught
+   (k = 200 + j: exception_signals(); raise(signal j)); prints the whole report Exception_Error wrote and the exit status;
+   the oracle builds the expected report on its own. */
+static size_t d_shape[3], d_sig, d_long;
+static void diag_op(const char* args, size_t line) {
+  int k, shape; long n; static char rep_[1 << 17]; static char want[1 << 17]; static char msg[1 << 16];
+  if (sscanf(args, "%d %d %ld", &k, &shape, &n) != 3 || k < 0 || shape < 0 || shape > 2 || n < 0 || n > 60000) { O("bad-op"); return; }
+  int er[2]; if (pipe(er)) { perror("pipe"); exit(2); }
+  fflush(stdout);
+  pid_t pid = fork();
+  if (pid == 0) {
+    close(er[0]); dup2(er[1], 2); alarm(20);
+    if (k >= 200) { exception_signals(); raise(sig_num[(k - 200) % NSIGS]); } else do_throw_shape(k, shape, (size_t)n);
+    _exit(0);
+  }
+  close(er[1]); size_t el = 0; ssize_t r;
+  while ((r = read(er[0], rep_ + el, sizeof rep_ - 1 - el)) > 0) el += r;
+  rep_[el] = 0; close(er[0]);
+  int st = 0; waitpid(pid, &st, 0);
+  const char* end = WIFSIGNALED(st) ? (WTERMSIG(st) == SIGABRT ? "abort" : WTERMSIG(st) == SIGALRM ? "hang" : "signal") : WEXITSTATUS(st) == EXIT_FAILURE ? "fatal" : "other";
+  char stat[16]; if (WIFEXITED(st)) snprintf(stat, sizeof stat, "%d", WEXITSTATUS(st)); else snprintf(stat, sizeof stat, "-");
+  static char esc[2048]; size_t eo = 0;
+  for (size_t i = 0; i < el && i < 400; i++) { char c = rep_[i]; if (c == '\n') { esc[eo++] = '\\'; esc[eo++] = 'n'; } else if (c == '\t') { esc[eo++] = '\\'; esc[eo++] = 't'; } else esc[eo++] = c; }
+  esc[eo] = 0;
+  O("diag end=%s status=%s len=%zu text=%s", end, stat, el, esc);
+  /* oracle */
+  char shown[64]; int idx = canon(k); o_shown(idx, shown, sizeof shown);
+  if (k >= 200) { snprintf(msg, sizeof msg, "%s", o_sig_msg[(k - 200) % NSIGS]); d_sig++; }
+  else if (shape == 0) { snprintf(msg, sizeof msg, "kind %d", k); }
+  else if (shape == 1) { snprintf(msg, sizeof msg, "\"obj\" is kind %d (100%%)", k); }
+  else { size_t o = snprintf(msg, sizeof msg, "kind %d ", k); for (long i = 0; i < n; i++) msg[o++] = (char)('a' + i % 26); snprintf(msg + o, sizeof msg - o, " end"); if (n > 1024) d_long++; }
+  if (k < 200) d_shape[shape]++;
+  snprintf(want, sizeof want, "\n!!\t\n!!\tUncaught %s\n!!\t\n!!\t\t %s\n!!\t\n", shown, msg);
+  if (strcmp(end, "fatal") != 0) X("sig=exn-end line=%zu what=uncaught exception did not terminate with failure status (ended %s, status %s)", line, end, stat);
+  else if (strcmp(want, rep_) != 0) {
+    size_t d = 0; while (want[d] && want[d] == rep_[d]) d++;
+    X("sig=exn-diag line=%zu what=the report of the uncaught exception is not `<empty line> / Uncaught <object> / <message>` framed by `!!` lines: first difference at byte %zu of %zu (want %zu bytes)", line, d, el, strlen(want));
+  }
+}
+
 static void strip_comma(char* s) { size_t l = strlen(s); if (l && s[l-1] == ',') s[l-1] = 0; }
 
 int main(int argc, char** argv) {
   v_init();
   if (argc < 2) { fprintf(stderr, "usage: h_exn <opfile>\n"); return 2; }
   size_t n; char** lines = v_read_lines(argv[1], &n);
+  size_t n_diag = 0, n_hist = 0, n_sigprog = 0;
   size_t nprog = 0, n_ood = 0, n_dup = 0, n_over = 0, n_clash = 0, n_deep = 0, max_nest = 0;
   /* room for C07_NEST_BOUND (and a few more) recursive activations of the interpreter — run() + run_tryN() with its jmp_buf,
      plus the callee frames of (f …) / (d N …) at every level — under ASan (the main thread's stack grows on demand) */
@@ -299,9 +372,25 @@ int main(int argc, char** argv) {
     char* l = lines[li];
     if (v_skippable(l)) continue;
     if (strcmp(l, "A") == 0) { accessor_probe(li + 1); continue; }
-    Node* prog = NULL; int lex[6]; int is_lex = 0;
+    Node* prog = NULL; int lex[6]; int is_lex = 0; int is_hist = 0;
+    if (l[0] == 'E' && l[1] == ' ') { diag_op(l + 2, li + 1); n_diag++; continue; }
     if (l[0] == 'P' && l[1] == ' ') { cur = l + 2; prog = parse_node(); skipws(); if (prog && *cur) prog = NULL; }
     static char lexbuf[1024];
+    if (l[0] == 'S' && l[1] == ' ') {
+      /* a history of `try { raise(sig n_i); s1 } catch (e in F) { s2 }` in ONE thread, then s9; mode 0: catch-all, 1: the signal's
+         own exception object, 2: TypeError (does not list it) */
+      int mode = -1, ns = 0, sg[12], off = 0, adv = 0; const char* q = l + 2;
+      if (sscanf(q, "%d%n", &mode, &adv) == 1 && mode >= 0 && mode <= 2) { q += adv;
+        while (ns < 12 && sscanf(q, " %d%n", &sg[ns], &adv) == 1 && sg[ns] >= 0) { q += adv; ns++; }
+        while (*q == ' ') q++;
+        if (ns >= 1 && *q == 0) {
+          static char hb[2048]; hb[0] = 0;
+          for (int i = 0; i < ns; i++) { char f[16] = ""; if (mode == 1) snprintf(f, sizeof f, "%d", 200 + sg[i] % NSIGS); else if (mode == 2) snprintf(f, sizeof f, "0");
+            off += snprintf(hb + off, sizeof hb - off, "(q (c (q (k %d) (s 1)) (%s) (s 2)) ", sg[i], f); }
+          off += snprintf(hb + off, sizeof hb - off, "(s 9)"); for (int i = 0; i < ns; i++) off += snprintf(hb + off, sizeof hb - off, ")");
+          allow_sig_filter = 1; cur = hb; prog = parse_node(); allow_sig_filter = 0; is_hist = 1; n_hist++;
+        } }
+    }
     if (l[0] == 'L' && l[1] == ' ' && sscanf(l + 2, "%d %d %d %d %d %d", &lex[0], &lex[1], &lex[2], &lex[3], &lex[4], &lex[5]) == 6) {
       char A[32] = "", B[32] = "", C[32] = "";
       #define OPT(buf, k, tag) do { if (k >= 0) snprintf(buf, sizeof buf, "(q (t %d) (s %d))", k, tag); else snprintf(buf, sizeof buf, "(s %d)", tag); } while (0)
@@ -311,7 +400,12 @@ int main(int argc, char** argv) {
         A, lex[5], B, lex[4], C, lex[3]);
       cur = lexbuf; prog = parse_node(); is_lex = 1;
     }
+    int sigcnt[NSIGS] = {0}, uses_sig = 0, sig_repeated = 0;
+    if (prog) { count_sigs(prog, sigcnt); for (int j = 0; j < NSIGS; j++) { if (sigcnt[j]) uses_sig = 1; if (sigcnt[j] > 1) sig_repeated = 1; } }
+    /* a `(k N)` leaf means "the signal is delivered": one signal twice in a program is op S's business */
+    if (prog && sig_repeated && !is_hist) prog = NULL;
     if (!prog) { O("bad-op"); continue; }
+    if (uses_sig) n_sigprog++;
     nprog++;
     int dupf = has_dup_filter(prog);
     int ev[2], er[2];
@@ -322,6 +416,7 @@ int main(int argc, char** argv) {
       close(ev[0]); close(er[0]); evfd = ev[1];
       dup2(er[1], 2);
       alarm(dupf ? 2 : 20);
+      if (uses_sig) exception_signals();
       size_t d0 = len(current(Exception));
       if (is_lex) run_lexical(lex[0], lex[1], lex[2], lex[3], lex[4], lex[5]); else run(prog, kind_obj(0));
       size_t d1 = len(current(Exception));
@@ -332,7 +427,7 @@ int main(int argc, char** argv) {
     static char tbuf[1 << 18]; size_t tl = 0; ssize_t r;
     while ((r = read(ev[0], tbuf + tl, sizeof tbuf - 1 - tl)) > 0) tl += r;
     tbuf[tl] = 0; close(ev[0]);
-    static char ebuf[1 << 14]; size_t el = 0;
+    static char ebuf[1 << 17]; size_t el = 0;
     while ((r = read(er[0], ebuf + el, sizeof ebuf - 1 - el)) > 0) el += r;
     ebuf[el] = 0; close(er[0]);
     int st = 0; waitpid(pid, &st, 0);
@@ -366,6 +461,12 @@ int main(int argc, char** argv) {
       int clean = strcmp(end, "abort") == 0 && strstr(ebuf, "Exception Buffer Overflow") && is_event_prefix(tbuf, full);
       if (!o_clash && !by_ref && !clean)
         X("sig=exn-overflow line=%zu what=try-nesting %zu beyond the bound %d: want the reference behaviour or a clean abort with the overflow message after a prefix of [%.300s], got end=%s after [%.300s]", li + 1, o_maxnest, C07_NEST_BOUND, full, end, tbuf);
+      continue;
+    }
+    if (sig_repeated) {
+      /* territory of KF-C07-signal-once: the second raise of a signal whose first occurrence left Exception_Signal by longjmp */
+      if (strcmp(full, tbuf) != 0 || (esc < 0) != (strcmp(end, "normal") == 0) || (esc >= 0 && strcmp(end, "fatal") != 0))
+        X("sig=exn-signal-once line=%zu what=a signal raised a second time in one thread did not become an exception (it stays blocked after Exception_Signal left its handler by longjmp): got [%s] end=%s, every raise a throw wants [%s] end=%s", li + 1, tbuf, end, full, esc < 0 ? "normal" : "fatal");
       continue;
     }
     if (dupf) n_dup++;
@@ -405,6 +506,7 @@ int main(int argc, char** argv) {
       if (!strstr(ebuf, want)) X("sig=exn-diag-msg line=%zu what=the diagnostic of the uncaught exception does not carry the message of the throw that raised it (want `%s`)", li + 1, o_msg);
     }
   }
+  I("diag_ops=%zu diag_shapes=%zu/%zu/%zu diag_signal=%zu diag_long=%zu sig_histories=%zu programs_with_signals=%zu", n_diag, d_shape[0], d_shape[1], d_shape[2], d_sig, d_long, n_hist, n_sigprog);
   I("programs=%zu out_of_domain=%zu dup_filter=%zu beyond_bound=%zu clash=%zu nest65plus=%zu max_nest=%zu", nprog, n_ood, n_dup, n_over, n_clash, n_deep, max_nest);
   return 0;
 }
